@@ -31,8 +31,8 @@ def scan() -> list[dict]:
         rel = str(path.relative_to(REPO))
         try:
             mod = ast.parse(path.read_text(), filename=rel)
-        except SyntaxError:
-            out.append({"module": rel, "cls": "<syntax error>", "op": "?", "domain": "?", "version": 0, "hash": ""})
+        except Exception:  # noqa: BLE001 - unreadable module: an entry that no modelled list contains
+            out.append({"module": rel, "cls": "<unparsable>", "op": "?", "domain": "?", "version": 0, "hash": ""})
             continue
         for cls in mod.body:
             if not isinstance(cls, ast.ClassDef):
